@@ -729,7 +729,9 @@ class rrule(rrulebase):
         if self._interval != 1:
             parts.append('INTERVAL=' + str(self._interval))
 
-        if self._wkst:
+        # (Monday is only the default for a reader whose process-wide week
+        # start, calendar.firstweekday(), has not been changed)
+        if self._wkst or calendar.firstweekday():
             parts.append('WKST=' + repr(weekday(self._wkst))[0:2])
 
         if self._count is not None:
